@@ -567,6 +567,17 @@ func c21run(srv *c21srv, c c21case) (res c21result, engineErr string) {
 		if err := cl.Connect(ctx); err != nil {
 			return res, "set-up Connect failed: " + err.Error()
 		}
+		// Let the publish loop reach its initial pause before anything subscribes:
+		// if Subscribe's resume token is already there when the loop starts, the
+		// loop may consume it before the initial pause token and then stay paused
+		// for ever (a start-up race of the client that belongs to C27, not to C21).
+		deadline := time.Now().Add(watchdog)
+		for !parkedAt(goroutines(), fnLoop) {
+			if time.Now().After(deadline) {
+				return res, "the publish loop did not reach its initial pause"
+			}
+			time.Sleep(100 * time.Microsecond)
+		}
 	}
 	srv.arm(c.Script)
 
